@@ -35,6 +35,7 @@ theorem stepSim_all (op : Op) : StepSim op := by
   | blockS i b => exact step_blockS i b
   | blockedSq i => exact step_blockedSq i
   | emptySq i => exact step_emptySq i
+  | boolSq i => exact step_boolSq i
   | callS i arg => exact stepSim_none (fun _ => rfl) (fun _ => rfl)
   | newG i fl => exact step_newG i fl
   | cpG j i => exact step_cpG j i
